@@ -848,7 +848,9 @@ def inline_attribute_aliases(prog: "Program") -> list[str]:
             if tg is None or binds.get(tg) != 1 or tg in params or not isinstance(val, ast.Attribute):
                 continue
             root, depth = chain_root(val)
-            if root is None or depth == 0 or (root not in ("self", "cls") and root not in params) or binds.get(root, 0) > 0:
+            external = root is not None and root in f.module.imports and not any(
+                f.module.imports[root] == mn or f.module.imports[root].startswith(mn + ".") or mn.startswith(f.module.imports[root] + ".") for mn in prog.modules)
+            if root is None or depth == 0 or (root not in ("self", "cls") and root not in params and not external) or binds.get(root, 0) > 0:
                 continue
             txt = ast.unparse(val)
             if any(txt == s or txt.startswith(s + ".") for s in stored_chains):
@@ -1055,3 +1057,82 @@ def split_annassign(tree: ast.AST) -> int:
     if n:
         ast.fix_missing_locations(tree)
     return n
+
+
+def fold_optional_injection(prog: "Program") -> list[str]:
+    """Normalisation ('optional dependency' idiom): a parameter p with default None that NO call in the analysed program ever passes, used as
+    `D if p is None else p` / `p if p is not None else D`, is read as D - the library's own behaviour. As soon as some call site passes the parameter
+    the expression is left alone (then both arms matter)."""
+    import copy
+
+    folded: list[str] = []
+    # every (callee simple name, keyword) pair and every (callee simple name, positional count) seen at call sites
+    kw_seen: set[tuple[str, str]] = set()
+    pos_seen: dict[str, int] = {}
+    star_kw: set[str] = set()
+    for m in prog.modules.values():
+        for c in ast.walk(m.tree):
+            if isinstance(c, ast.Call):
+                nm = c.func.attr if isinstance(c.func, ast.Attribute) else (c.func.id if isinstance(c.func, ast.Name) else None)
+                if nm is None:
+                    continue
+                for k in c.keywords:
+                    if k.arg is None:
+                        star_kw.add(nm)
+                    else:
+                        kw_seen.add((nm, k.arg))
+                npos = len(c.args) + (100 if any(isinstance(a, ast.Starred) for a in c.args) else 0)
+                pos_seen[nm] = max(pos_seen.get(nm, 0), npos)
+    def private(f) -> bool:
+        """only callables the library alone calls: private functions / methods, and non-dunder methods of private classes (a public parameter is the user's to pass)"""
+        if f.name.startswith("__") and f.name.endswith("__"):
+            return False
+        return f.name.startswith("_") or (f.cls is not None and f.cls.name.startswith("_")) or f.parent is not None
+
+    for f in list(prog.functions.values()):
+        fn = f.node
+        if isinstance(fn, ast.Lambda) or not private(f):
+            continue
+        a_ = fn.args
+        allp = a_.posonlyargs + a_.args
+        cands: dict[str, int | None] = {}
+        for i, (x, dv) in enumerate(zip(allp[len(allp) - len(a_.defaults):], a_.defaults)):
+            if isinstance(dv, ast.Constant) and dv.value is None:
+                cands[x.arg] = len(allp) - len(a_.defaults) + i
+        for x, dv in zip(a_.kwonlyargs, a_.kw_defaults):
+            if isinstance(dv, ast.Constant) and dv.value is None:
+                cands[x.arg] = None
+        if not cands:
+            continue
+        names = {f.name} | ({f.cls.name} if f.cls is not None and f.name in ("__init__", "__new__") else set())
+        stored = {n.id for n in ast.walk(fn) if isinstance(n, ast.Name) and isinstance(n.ctx, (ast.Store, ast.Del))}
+        free = {}
+        for p, idx in cands.items():
+            if p in stored:
+                continue
+            passed = any((nm, p) in kw_seen or nm in star_kw for nm in names)
+            if idx is not None:
+                bound_self = 1 if (f.cls is not None and "staticmethod" not in f.decorators) else 0
+                passed = passed or any(pos_seen.get(nm, 0) > idx - bound_self for nm in names)
+            if not passed:
+                free[p] = True
+        if not free:
+            continue
+
+        class T(ast.NodeTransformer):
+            def visit_IfExp(self, node):
+                self.generic_visit(node)
+                t = node.test
+                if isinstance(t, ast.Compare) and len(t.ops) == 1 and isinstance(t.left, ast.Name) and t.left.id in free \
+                        and isinstance(t.comparators[0], ast.Constant) and t.comparators[0].value is None:
+                    if isinstance(t.ops[0], ast.Is) and isinstance(node.orelse, ast.Name) and node.orelse.id == t.left.id:
+                        folded.append(f"{f.short()}({t.left.id})")
+                        return node.body
+                    if isinstance(t.ops[0], ast.IsNot) and isinstance(node.body, ast.Name) and node.body.id == t.left.id:
+                        folded.append(f"{f.short()}({t.left.id})")
+                        return node.orelse
+                return node
+
+        fn.body = [T().visit(st) for st in fn.body]
+        ast.fix_missing_locations(fn)
+    return sorted(set(folded))
